@@ -419,26 +419,39 @@ def run_check(spec, tier='quick', seed=0, jobs=None, keep=False, verbose=True):
             if seen_v[key] <= getattr(spec, 'REPLAYS_PER_TAG', 3):
                 by_pkg.setdefault(v['task'].pkg, []).append(('viol', v))
         skip_native = os.environ.get('VERIF_SKIP_NATIVE') == '1'
-        if getattr(spec, 'NATIVE', True) is False:
-            # kernel-mode harnesses: confirm by concrete re-execution in the interpreter
-            for pkg, items in list(by_pkg.items()):
-                for kind, x in items:
-                    if kind != 'viol':
+        kernel_pkgs = set(getattr(spec, 'KERNEL_PKGS', ()))
+        native_prefixes = tuple(getattr(spec, 'NATIVE_ROOT_PREFIXES', ()))
+
+        def is_kernel(t):
+            if getattr(spec, 'NATIVE', True) is False:
+                return True
+            return t.pkg in kernel_pkgs and not t.root.startswith(native_prefixes or ('\0',))
+        # kernel-mode harnesses (blocking code): confirm by concrete re-execution in the interpreter
+        for pkg, items in list(by_pkg.items()):
+            keep = []
+            for kind, x in items:
+                if kind != 'viol' or not is_kernel(x['task']):
+                    if kind == 'obs' and is_kernel(x['task']):
                         continue
-                    t = x['task']
-                    r = pool.apply(_confirm_task, ((t.full_root(), t.args, t.opts, x['vector'], x.get('choices', []), jpaths.get(t.group, jpath)),))
-                    x['native'] = r
-                    rep = (x['tag'] in r.get('failures', [])) if x['kind'] == 'assert' else (
-                        r.get('outcome') == 'panic' or any(f.startswith('panic:') for f in r.get('failures', [])))
-                    if rep:
-                        k = match_known(known, pid, t.root, x['tag'], t.args, x['vector'])
-                        if k is not None:
-                            known_hits.append((k, x))
-                        else:
-                            confirmed.append(x)
+                    keep.append((kind, x))
+                    continue
+                t = x['task']
+                r = pool.apply(_confirm_task, ((t.full_root(), t.args, t.opts, x['vector'], x.get('choices', []), jpaths.get(t.group, jpath)),))
+                x['native'] = r
+                rep = (x['tag'] in r.get('failures', [])) if x['kind'] == 'assert' else (
+                    r.get('outcome') == 'panic' or any(f.startswith('panic:') for f in r.get('failures', [])))
+                if rep:
+                    k = match_known(known, pid, t.root, x['tag'], t.args, x['vector'])
+                    if k is not None:
+                        known_hits.append((k, x))
                     else:
-                        spurious.append(x)
-            by_pkg = {}
+                        confirmed.append(x)
+                else:
+                    spurious.append(x)
+            if keep:
+                by_pkg[pkg] = keep
+            else:
+                del by_pkg[pkg]
         pool.terminate()
         pool.join()
         obs_pkgs = sorted(p for p, it in by_pkg.items() if any(x[0] == 'obs' for x in it))
